@@ -600,6 +600,7 @@ def gen_history(rng, tier):
         elif r < 92:
             s2 = rng.below(nslots)
             if not sh[s2].open: s2 = s
+            if fmts[s] == 5 and fmts[s2] < 5: s2 = s     # see probe_xfmt_copy: known defect, probed separately
             v = varid(st); v2 = varid(sh[s2]); nm = name(atts_of(st, v))
             ops.append(('copy_att', s, v, nm, s2, v2))
             if nm in atts_of(st, v) and nm not in atts_of(sh[s2], v2) and (v2 == -1 or 0 <= v2 < len(sh[s2].vatts)):
@@ -628,19 +629,52 @@ def run_history(hist, impl, mexe, workdir, tag, env=None, timeout=120):
     ops = hist['ops']
     script, where = script_of(ops, hist['nprocs'])
     r = S.run_script(script, impl, None, workdir, tag, timeout=timeout, env=env, want_model=False)
-    res = dict(hang=r.hang, crash=r.crash, mism=[], oracle=[], script=script, ub_at=None, model_err=None, ncmp=0)
+    res = dict(hang=r.hang, crash=r.crash, mism=[], oracle=[], script=script, ub_at=None, model_err=None, ncmp=0,
+               rcs=[], datamode_ok=0, undecodable=None)
+    line2op = {l: i for i, l in enumerate(where)}
     if r.hang or r.crash:
-        res['last'] = max([k[0] for k in r.impl] or [0])
+        ll = max([k[0] for k in r.impl] or [0])
+        res['last_op'] = ops[line2op[ll]][0] if ll in line2op else None
+    # return codes and modes as the library itself reports them (rank 0)
+    indef = {}; fmt = {}; xcopy = False
+    for i, o in enumerate(ops):
+        tok = r.impl.get((where[i], 0))
+        try:
+            rc = int(tok[1])
+        except (TypeError, IndexError, ValueError):
+            continue
+        res['rcs'].append((i, rc))
+        k = o[0]
+        if k == 'create':
+            fmt[o[1]] = o[2]
+        if rc == 0:
+            if k == 'create' or k == 'redef': indef[o[1]] = True
+            elif k in ('enddef', 'open', 'close'): indef[o[1]] = False
+            elif k in ('put_att', 'rename_dim', 'rename_var', 'rename_att') and not indef.get(o[1], False):
+                res['datamode_ok'] += 1
+            elif k == 'copy_att':
+                if not indef.get(o[4], False): res['datamode_ok'] += 1
+                if fmt.get(o[1]) == 5 and fmt.get(o[4], 5) < 5: xcopy = True
     begins = expected_begins(ops, r.impl, where)
     ml, err = run_model(mexe, hist['nslots'], flat_of(ops, begins), workdir, tag)
     if ml is None:
         res['model_err'] = err
         return res
+    stop = len(ops)
     for i, o in enumerate(ops):
         if i >= len(ml):
             res['model_err'] = 'model produced %d lines for %d ops' % (len(ml), len(ops)); break
         if ml[i] == [UB_MARK]:
-            res['ub_at'] = i; break
+            res['ub_at'] = i; stop = i; break
+        if o[0] == 'open' and ml[i][0] == -51:
+            # the header the library wrote (as the model has it) is rejected by the specification decoder
+            tok = r.impl.get((where[i], 0))
+            res['undecodable'] = i
+            res['undecodable_rc'] = tok[1] if tok and len(tok) > 1 else None
+            res['undecodable_why'] = 'copy_att:cdf5-type-into-classic-file' if xcopy else 'unknown'
+            if tok and len(tok) > 1 and tok[1] == '0':
+                res['mism'].append((i, 0, 'library opens a file whose header the specification decoder rejects'))
+            stop = i; break
         for rank in range(hist['nprocs']):
             tok = r.impl.get((where[i], rank))
             if tok is None:
@@ -650,7 +684,10 @@ def run_history(hist, impl, mexe, workdir, tag, env=None, timeout=120):
             for m in compare_op(o, tok, ml[i], rank):
                 res['mism'].append((i, rank, m))
             res['ncmp'] += 1
-    if not (r.hang or r.crash):
+    if res['undecodable'] is not None:
+        # what follows in the script runs on a stale ncid: not part of the history
+        res['hang'] = False; res['crash'] = None
+    elif not (r.hang or r.crash):
         for rank in range(hist['nprocs']):
             res['oracle'] += [(k, i, rank, m) for (k, i, m) in oracle(ops, r.impl, where, rank)]
     return res
@@ -692,3 +729,312 @@ def shrink_history(hist, fails, budget=60):
             if chunk == 1: break
             n = min(n * 2, len(ops))
     return dict(hist, ops=ops)
+
+# ------------------------------------------------------------------ exhaustive short histories (batched)
+def small_histories(kind, depth, toggles):
+    """all op sequences of length <= depth over 3 names that collide in a 2-bucket (attrs, dims) or 1-bucket
+    (vars) table; each followed by a dump and the three lookups.  kind in 'att' 'dim' 'var'."""
+    import itertools
+    names = SMALL_NAMES
+    if kind == 'att':
+        alpha = [('put_att', 0, -1, n, 4, [k + 1]) for k, n in enumerate(names)] + \
+                [('del_att', 0, -1, n) for n in names] + \
+                [('rename_att', 0, -1, a, b) for a in names for b in names if a != b]
+        probes = [('inq', 0)] + [('inq_attid', 0, -1, n) for n in names]
+    elif kind == 'dim':
+        alpha = [('def_dim', 0, n, k + 1) for k, n in enumerate(names)] + \
+                [('rename_dim', 0, i, n) for i in range(3) for n in names]
+        probes = [('inq', 0)] + [('inq_dimid', 0, n) for n in names]
+    else:
+        alpha = [('def_var', 0, n, 4, []) for n in names] + \
+                [('rename_var', 0, i, n) for i in range(3) for n in names]
+        probes = [('inq', 0)] + [('inq_varid', 0, n) for n in names]
+    if toggles:
+        alpha = alpha + [('enddef', 0), ('redef', 0)]
+    hints = (2, 1, 2, 2)
+    for d in range(1, depth + 1):
+        for seq in itertools.product(alpha, repeat=d):
+            yield [('create', 0, 1, hints)] + list(seq) + probes + [('close', 0)]
+
+SMALL_NAMES = None
+def init_small_names():
+    """three short names in the same bucket of a 2-entry table under the model's hash, one of them with a
+    non-ASCII byte"""
+    global SMALL_NAMES
+    c = [b'a', b'b', b'c', b'd', b'e', b'f', b'\xc3\xa9', b'g', b'h']
+    k0 = [n for n in c if bernstein(n, 2) == 0]
+    k1 = [n for n in c if bernstein(n, 2) == 1]
+    SMALL_NAMES = (k0 if len(k0) >= 3 else k1)[:3]
+
+def run_batch(hists, impl, mexe, workdir, tag):
+    """many single-slot histories in one script / one model run"""
+    ops = [o for h in hists for o in h]
+    hist = dict(nprocs=1, nslots=1, ops=ops)
+    return hist, run_history(hist, impl, mexe, workdir, tag, timeout=900)
+
+# ------------------------------------------------------------------ the check
+def probe_hash0(ctx, workdir):
+    """nc_hash_size_* = 0 is accepted by the hint code (only < 0 falls back to the default): calloc(0) table,
+    mask -1 => nameT[key] out of bounds.  The model predicts UB; ASan observes it."""
+    ops = [('create', 0, 1, (0, None, None, None)), ('def_dim', 0, b'x', 5), ('def_dim', 0, b'y', 7),
+           ('inq_dimid', 0, b'y'), ('close', 0)]
+    lib = C.libdir('asan')
+    impl = S.impl_exe(lib, asan=True)
+    script, where = script_of(ops, 1)
+    r = S.run_script(script, impl, None, workdir, 'hash0', timeout=120, want_model=False,
+                     env={'ASAN_OPTIONS': 'detect_leaks=0:abort_on_error=0'})
+    asan_hit = bool(r.crash) and ('AddressSanitizer' in (r.stdout or '') or 'runtime error' in (r.stdout or ''))
+    where_txt = ''
+    m = re.search(r'SUMMARY: AddressSanitizer: (\S+) \S*?(src/drivers/\S+) in (\S+)', r.stdout or '')
+    if m:
+        where_txt = '%s in %s (%s)' % (m.group(1), m.group(3), m.group(2))
+    return ops, asan_hit, where_txt, (r.stdout or '')[-1500:]
+
+def probe_xfmt_copy(impl, mexe, workdir):
+    """copy_att of an attribute with a CDF-5-only type into a CDF-1 file"""
+    ops = [('create', 0, 5, (None,) * 4), ('create', 1, 1, (None,) * 4),
+           ('put_att', 0, -1, b'a', 10, [7]), ('copy_att', 0, -1, b'a', 1, -1), ('inq', 1),
+           ('close', 1), ('open', 1, 0, (None,) * 4), ('close', 0)]
+    hist = dict(nprocs=1, nslots=2, ops=ops)
+    script, where = script_of(ops, 1)
+    r = S.run_script(script, impl, None, workdir, 'xfmt', timeout=60, want_model=False)
+    rc_copy = int(r.impl.get((where[3], 0), ['', '-1'])[1])
+    rc_close = int(r.impl.get((where[5], 0), ['', '-1'])[1])
+    rc_open = int(r.impl.get((where[6], 0), ['', '-1'])[1])
+    ml, err = run_model(mexe, 2, flat_of(ops, {}), workdir, 'xfmt')
+    return hist, rc_copy, rc_close, rc_open, ml
+
+def run(ctx):
+    lib = C.libdir()
+    impl = S.impl_exe(lib)
+    hexe = C.build_c(lib, [os.path.join(C.VERIF, 'harness', 'c07_hash.c')], 'c07_hash',
+                     extra=['-I' + os.path.join(lib, 'gen', 'src', 'drivers', 'ncmpio')])
+    pr = C.prove(ctx.pid, gens=('consts',), lib=lib)
+    proof_ok = ctx.add_proof(pr, 'make Properties_C07.vo (coqc 8.16.1, full .vo) + Print Assumptions')
+    ctx.cov['trusted_base'] = list(C.TRUSTED_COMMON) + [
+        'harness/c07_driver.ml (integer I/O only; the op decoder dec_items is in Coq)',
+        'harness/c07_hash.c (prints HASH_FUNC), harness/pnc_impl.c (script driver)',
+        'checks/C07.py: history generator, flat encoder, log parser, comparison']
+    if not proof_ok:
+        ctx.violation('proof obligations of Properties_C07.v not discharged: %s' % ', '.join(pr['failed'][:5]),
+                      dict(log=pr['log'][-3000:]), no_input=True)
+    mexe = model_exe()
+    wd = C.scratch('c07.')
+    rng = ctx.rng
+    thorough = ctx.tier == 'thorough'
+    dist = dict(ops={}, rc={}, hsizes={}, nprocs={}, fmt={}, name_len_max=0, utf8_names=0, colliding_pairs=0,
+                datamode_updates_ok=0, ok_modifications=0, histories=0, batched_small_histories=0,
+                hash_points=0, reopen_dumps_compared=0, snapshots_compared=0)
+
+    # ---- (1) hash tie: Meta.bernstein == HASH_FUNC of the library == generator's mirror
+    hr = rng.fork('hash')
+    pts = []
+    for i in range(3000 if thorough else 600):
+        n = rand_valid_name(hr, hr.choice([1, 2, 5, 17, 100, 256])) if hr.chance(3, 4) else \
+            bytes(hr.range(1, 255) for _ in range(hr.range(1, 40)))
+        pts.append((hr.choice([1, 2, 3, 4, 5, 6, 7, 8, 16, 64, 256, 1000, 65536, 2 ** 30, 0]), n))
+    hp = os.path.join(wd, 'hash.txt')
+    open(hp, 'w').write(''.join('%d %s\n' % (h, n.hex()) for h, n in pts))
+    rc, out = C.sh([hexe, hp], timeout=120)
+    cvals = [int(x) for x in out.split()] if rc == 0 else []
+    flat = []
+    for h, n in pts:
+        flat += [20, h] + nm_flat(n)
+    mvals, err = run_model(mexe, 1, flat, wd, 'hash')
+    bad = None
+    if len(cvals) != len(pts) or mvals is None or len(mvals) != len(pts):
+        bad = 'hash harness/model produced %d/%s values for %d points (%s)' % (len(cvals), mvals and len(mvals), len(pts), err)
+    else:
+        for (h, n), cv, mv in zip(pts, cvals, mvals):
+            if not (cv == mv[0] == bernstein(n, h)):
+                bad = 'HASH_FUNC(%s,%d): library %d, Meta.bernstein %d, generator %d' % (n.hex(), h, cv, mv[0], bernstein(n, h))
+                break
+            if h > 0 and not (0 <= cv < h):
+                bad = 'HASH_FUNC(%s,%d) = %d outside [0,hsize)' % (n.hex(), h, cv)
+                break
+    dist['hash_points'] = len(pts)
+    if bad:
+        ctx.violation('corr_C07_hash: ' + bad, dict(detail=bad), no_input=True)
+    # generator's NFC table == model's nfc_tab; check_name agrees on the bad-name dictionary (through def_dim below)
+    nf = rng.fork('nfc')
+    names = [rand_valid_name(nf, nf.choice([3, 10, 60])) for _ in range(200)] + [k for k, _ in NFC_PAIRS]
+    flat = []
+    for n in names:
+        flat += [21] + nm_flat(n)
+    mv, err = run_model(mexe, 1, flat, wd, 'nfc')
+    if mv is None or len(mv) != len(names) or any(bytes(a) != nfc_tab(n) for a, n in zip(mv, names)):
+        ctx.violation('corr_C07_nfc_table: generator NFC table differs from Meta.nfc_tab', dict(err=str(err)), no_input=True)
+
+    # ---- (2) probes for the two defects found while building the model
+    ops0, asan_hit, where_txt, tail = probe_hash0(ctx, wd)
+    ml0, _ = run_model(mexe, 1, flat_of(ops0, {}), wd, 'hash0m')
+    model_ub = ml0 is not None and [UB_MARK] in ml0
+    ctx.count('hash-size-0 probe ' + hist_repr(dict(nprocs=1, nslots=1, ops=ops0)), nontrivial=True)
+    dist['hash0_probe'] = dict(model_predicts_out_of_bounds=model_ub, asan_reports=asan_hit, where=where_txt)
+    if asan_hit:
+        ctx.violation('hint nc_hash_size_dim=0 is accepted; def_dim then indexes nameT[] out of bounds '
+                      '(AddressSanitizer: %s); the model predicts the out-of-bounds access (table of size 0, mask -1)'
+                      % where_txt,
+                      dict(ops=json_ops(ops0), nprocs=1, nslots=1, variant='asan', asan_tail=tail), key='hash-size-hint-0:oob')
+    elif model_ub:
+        ctx.violation('corr_C07_hash0: model predicts an out-of-bounds bucket access for hash size 0 but ASan reports nothing',
+                      dict(ops=json_ops(ops0), tail=tail), no_input=True)
+    hx_, rc_copy, rc_close, rc_open, mlx = probe_xfmt_copy(impl, mexe, wd)
+    ctx.count('cross-format copy probe ' + hist_repr(hx_), nontrivial=True)
+    dist['xfmt_copy_probe'] = dict(copy_rc=rc_copy, close_rc=rc_close, reopen_rc=rc_open,
+                                   model_reopen=(mlx[6][0] if mlx and len(mlx) > 6 else None))
+    if rc_copy == 0 and rc_close == 0 and rc_open != 0:
+        ctx.violation('ncmpi_copy_att copies an attribute of a CDF-5-only type (NC_INT64) into a CDF-1 file without '
+                      'NC_ESTRICTCDF2; close succeeds and the file cannot be reopened (rc %d): content is not found '
+                      'after close and reopen' % rc_open,
+                      dict(ops=json_ops(hx_['ops']), nprocs=1, nslots=2), key='copy_att:cdf5-type-into-classic-file')
+    elif mlx and len(mlx) > 6 and (mlx[3][0], mlx[6][0] == 0) != (rc_copy, rc_open == 0):
+        ctx.violation('corr_C07_xfmt_copy: model (copy rc %d, reopen rc %d) vs library (copy rc %d, reopen rc %d)'
+                      % (mlx[3][0], mlx[6][0], rc_copy, rc_open), dict(ops=json_ops(hx_['ops'])), no_input=True)
+
+    # ---- (3) random long histories
+    nh = 2600 if thorough else 170
+    hists = []
+    for k in range(nh):
+        hists.append(gen_history(rng.fork('h%d' % k), ctx.tier))
+    def one(kh):
+        k, h = kh
+        return k, h, run_history(h, impl, mexe, wd, 'h%d' % k)
+    reported = set()
+    with cf.ThreadPoolExecutor(max_workers=8) as ex:
+        for k, h, r in ex.map(one, enumerate(hists)):
+            account(ctx, dist, h, r)
+            judge(ctx, h, r, impl, mexe, wd, reported, 'random history %d' % k)
+
+    # ---- (4) exhaustive short histories over 3 colliding names
+    init_small_names()
+    plans = [('att', 3, True), ('dim', 3, True), ('var', 3, True)] if thorough else \
+            [('att', 2, True), ('dim', 2, True), ('var', 2, False)]
+    if thorough:
+        plans += [('att', 4, False), ('dim', 4, False)]
+    batches = []
+    for kind, depth, tog in plans:
+        cur = []
+        for hh in small_histories(kind, depth, tog):
+            cur.append(hh)
+            if len(cur) >= 700:
+                batches.append((kind, depth, cur)); cur = []
+        if cur:
+            batches.append((kind, depth, cur))
+    def oneb(x):
+        i, (kind, depth, hs) = x
+        hist, r = run_batch(hs, impl, mexe, wd, 'b%d' % i)
+        return kind, depth, hs, hist, r
+    with cf.ThreadPoolExecutor(max_workers=8) as ex:
+        for kind, depth, hs, hist, r in ex.map(oneb, enumerate(batches)):
+            dist['batched_small_histories'] += len(hs)
+            for hh in hs[:3]:
+                ctx.count('small %s ' % kind + hist_repr(dict(nprocs=1, nslots=1, ops=hh)), nontrivial=True)
+            ctx.cov['evaluations'] += max(0, len(hs) - 3)
+            judge(ctx, hist, r, impl, mexe, wd, reported, 'exhaustive %s histories depth<=%d' % (kind, depth), small=hs)
+
+    ctx.cov['rule'] = ('random histories of 30-160 API calls over 1-2 files (formats 1/2/5), 1-2 ranks, name-table hint sizes '
+                       'from {none,1,2,3,4,5,6,8,16,64,256,negative}; name pool of 6-14 names searched so that most share one '
+                       'bucket of the largest table under the model\'s own hash, lengths up to 256 and beyond, UTF-8 '
+                       'composed/decomposed pairs, illegal names; every return code, id, inquiry dump, lookup and on-disk '
+                       'header compared with the extracted Coq model; plus all histories of <= 2 (quick) / 3-4 (thorough) ops '
+                       'over 3 colliding names for attributes, dimensions, variables. Non-trivial = at least one successful '
+                       'rename/delete/overwrite/copy after a successful definition (from the library\'s own return codes).')
+    ctx.cov['distribution'] = dist
+
+MODIFY = ('rename_dim', 'rename_var', 'rename_att', 'del_att', 'copy_att')
+
+def account(ctx, dist, h, r):
+    ops = h['ops']
+    dist['histories'] += 1
+    dist['nprocs'][str(h['nprocs'])] = dist['nprocs'].get(str(h['nprocs']), 0) + 1
+    okmod = 0; okdef = 0
+    script, where = script_of(ops, h['nprocs'])
+    rcs = {}
+    for l in r.get('impl_rcs', []):
+        pass
+    for i, o in enumerate(ops):
+        dist['ops'][o[0]] = dist['ops'].get(o[0], 0) + 1
+        if o[0] in ('create', 'open'):
+            for v, key in zip(o[3], ('dim', 'var', 'gatt', 'vatt')):
+                kk = '%s=%s' % (key, 'none' if v is None else v)
+                dist['hsizes'][kk] = dist['hsizes'].get(kk, 0) + 1
+            if o[0] == 'create':
+                dist['fmt'][str(o[2])] = dist['fmt'].get(str(o[2]), 0) + 1
+        for x in o:
+            if isinstance(x, bytes):
+                dist['name_len_max'] = max(dist['name_len_max'], len(x))
+                if any(c > 127 for c in x):
+                    dist['utf8_names'] += 1
+    for (i, rc) in r.get('rcs', []):
+        k = ops[i][0]
+        dist['rc'][str(rc)] = dist['rc'].get(str(rc), 0) + 1
+        if rc == 0 and k in MODIFY: okmod += 1
+        if rc == 0 and k in ('def_dim', 'def_var', 'put_att'): okdef += 1
+    dist['ok_modifications'] += okmod
+    dist['datamode_updates_ok'] += r.get('datamode_ok', 0)
+    dist['snapshots_compared'] += sum(1 for o in ops if o[0] == 'snapshot')
+    dist['reopen_dumps_compared'] += sum(1 for o in ops if o[0] == 'open')
+    ctx.count(hist_repr(h), nontrivial=(okmod > 0 and okdef > 0))
+
+def judge(ctx, h, r, impl, mexe, wd, reported, what, small=None):
+    """verdict protocol for one (batched) history"""
+    ops = h['ops']
+    rep = dict(nprocs=h['nprocs'], nslots=h['nslots'], ops=json_ops(ops))
+    def shrunk(pred):
+        if small is not None or len(ops) > 400:
+            return rep
+        try:
+            hs = shrink_history(h, lambda hh: pred(run_history(hh, impl, mexe, wd, 'shr')), budget=40)
+            return dict(nprocs=hs['nprocs'], nslots=hs['nslots'], ops=json_ops(hs['ops']))
+        except Exception:
+            return rep
+    if r.get('undecodable') is not None:
+        i = r['undecodable']
+        key = 'reopen-fails:' + (r.get('undecodable_why') or 'unknown')
+        if key not in reported:
+            reported.add(key)
+            ctx.violation('%s: the library wrote and closed a file without error, the format-specification decoder rejects '
+                          'the header (%s); library reopen rc %s' % (what, r.get('undecodable_why'), r.get('undecodable_rc')),
+                          rep, key=key)
+        return
+    if r['oracle']:
+        kinds = sorted({m[0] for m in r['oracle']})
+        key = 'oracle:' + '+'.join(kinds)
+        if key not in reported:
+            reported.add(key)
+            ctx.violation('%s: %s' % (what, '; '.join('%s at op %d rank %d: %s' % m for m in r['oracle'][:3])),
+                          shrunk(lambda rr: bool(rr['oracle'])), key=key)
+        return
+    if r['hang'] or r['crash']:
+        last = r.get('last_op')
+        key = ('hang:' if r['hang'] else 'crash:') + str(last)
+        if key not in reported:
+            reported.add(key)
+            ctx.violation('%s: implementation %s at/after script line of op %s: %s'
+                          % (what, 'hangs' if r['hang'] else 'crashes', last, (r['crash'] or '')[-400:]), rep, key=key)
+        return
+    if r['model_err'] or r['ub_at'] is not None or r['mism']:
+        if 'corr' in reported:
+            return
+        reported.add('corr')
+        if r['model_err']:
+            txt = 'model run failed: %s' % r['model_err']
+        elif r['ub_at'] is not None:
+            txt = 'the model predicts an out-of-bounds access at op %d %r; the library shows no fault' % (r['ub_at'], ops[r['ub_at']])
+        else:
+            txt = '; '.join('op %d %r rank %d: %s' % (i, ops[i][:3], rk, m) for i, rk, m in r['mism'][:3])
+        ctx.violation('corr_C07_history (%s): model and library disagree while the oracle on the library passes: %s'
+                      % (what, txt), shrunk(lambda rr: bool(rr['mism'] or rr['ub_at'] is not None)), no_input=True)
+
+def replay(ctx, d):
+    lib = C.libdir(d.get('variant', 'default'))
+    impl = S.impl_exe(lib, asan=(d.get('variant') == 'asan'))
+    mexe = model_exe()
+    wd = C.scratch('c07r.')
+    h = dict(nprocs=d['nprocs'], nslots=d['nslots'], ops=unjson_ops(d['ops']))
+    r = run_history(h, impl, mexe, wd, 'replay', env={'ASAN_OPTIONS': 'detect_leaks=0'} if d.get('variant') == 'asan' else None)
+    print(r['script'])
+    for k in ('hang', 'crash', 'mism', 'oracle', 'ub_at', 'model_err', 'undecodable', 'undecodable_rc'):
+        print(k, '=', r.get(k))
+    return 1 if (r['hang'] or r['crash'] or r['mism'] or r['oracle'] or r.get('undecodable') is not None) else 0
